@@ -168,10 +168,27 @@ def fold_order(ctx, fn, start):
     ctx.ob("R03.1", "SVG.parse[viewport transform appended]", ok, "; ".join(ast.unparse(v)[:60] for v in vp), vp[0].lineno if vp else fn.lineno,
            "the viewBox transform applies to the svg's content, inside the svg's own transform: it must be appended on the right")
     up = ctx.fn("Use.property_by_values", "R03.1")
-    fmts = [n for n in ast.walk(up) if isinstance(n, ast.BinOp) and isinstance(n.op, ast.Mod) and isinstance(n.left, ast.Constant) and "translate(" in str(n.left.value)]
-    ok = len(fmts) == 2 and any(f.left.value == "%s translate(%s, %s)" and ast.unparse(f.right.elts[0]) == "values[SVG_ATTR_TRANSFORM]" and [ast.unparse(e) for e in f.right.elts[1:]] == ["self.x", "self.y"] for f in fmts) \
-        and any(f.left.value == "translate(%s, %s)" and [ast.unparse(e) for e in f.right.elts] == ["self.x", "self.y"] for f in fmts)
-    ctx.ob("R03.1", "Use.property_by_values[x/y as trailing translate]", ok, "; ".join(str(f.left.value) for f in fmts), up.lineno,
+    from ..pe import PE, K, Raised
+    vp_ = up.args.args[1].arg
+    # the statement(s) that build the translate text, followed for a use with / without an inherited transform (marker strings only)
+    slice_ = [x for x in up.body if any(isinstance(n, ast.Constant) and isinstance(n.value, str) and "translate(" in n.value for n in ast.walk(x))]
+    results = {}
+    for has_prev in (True, False):
+        pe = PE(ctx.m, "R03.1", "Use.property_by_values", oracle=lambda pe_, t: True if any(isinstance(n, ast.Attribute) and n.attr in ("x", "y") for n in ast.walk(t)) else None)
+        pe.bind(vp_, K({"transform": K("PREV")} if has_prev else {}))
+        pe.attrs["self.x"] = K("X")
+        pe.attrs["self.y"] = K("Y")
+        try:
+            pe.run(slice_)
+            got = pe.env[vp_].v.get("transform")
+            results[has_prev] = got.v if isinstance(got, K) else None
+        except Raised as e:
+            results[has_prev] = "raises %s" % e.name
+        except AnalysisError as e:
+            raise AnalysisError("R03.1", str(e))
+    ok = bool(slice_) and results.get(True) == "PREV translate(X, Y)" and results.get(False) == "translate(X, Y)"
+    fmts = []
+    ctx.ob("R03.1", "Use.property_by_values[x/y as trailing translate]", ok, "with inherited transform: %r; without: %r" % (results.get(True), results.get(False)), up.lineno,
            "use x/y is an additional translate(x, y) appended to (applied before) the use's transform")
     ok = any("values[SVG_ATTR_TRANSFORM] = s.values[SVG_ATTR_TRANSFORM]" == ast.unparse(s) for s in stmts_in(start))
     ctx.ob("R03.1", "SVG.parse[use transform reaches the referenced content]", ok, "", fn.lineno, "the expanded reference inherits the use's transform including the x/y translate")
